@@ -341,3 +341,35 @@ pub fn check<T: Copy + Ord + std::fmt::Debug>(
         Err(msg) => ctx.violation(method, "iterator-op", q(), want.show(), format!("PANIC: {msg}")),
     }
 }
+
+/// An iterator with a chosen (still truthful) size hint: 0 exact, 1 unknown (0, None), 2 an upper bound eight times too
+/// large and no lower bound (what `filter` reports), 3 a lower bound of half the length and no upper bound.
+pub struct Hinted<I> {
+    it: I,
+    hint: (usize, Option<usize>),
+}
+
+pub fn hinted<T>(v: Vec<T>, kind: u8) -> Hinted<std::vec::IntoIter<T>> {
+    let n = v.len();
+    let hint = match kind {
+        0 => (n, Some(n)),
+        1 => (0, None),
+        2 => (0, Some(8 * n + 4096)),
+        _ => (n / 2, None),
+    };
+    Hinted { it: v.into_iter(), hint }
+}
+
+impl<I: Iterator> Iterator for Hinted<I> {
+    type Item = I::Item;
+    fn next(&mut self) -> Option<I::Item> {
+        let x = self.it.next();
+        if x.is_some() {
+            self.hint.0 = self.hint.0.saturating_sub(1);
+        }
+        x
+    }
+    fn size_hint(&self) -> (usize, Option<usize>) {
+        self.hint
+    }
+}
